@@ -16,28 +16,39 @@ solver-free shortcut of `check_unsat_asserts`).  GIVEN the compile contract on a
 — each verification condition "holds" (its asserts are unsatisfiable, `checkUnsat = true`) exactly when the
 corresponding statement about the concrete authorizer model `Cedar.isAuthorized` (Authorizer.lean, C01) is true.
 
-PROVED HERE FOR A FIRST FRAGMENT OF THE COMPILER (`Cedar.SymC`, Cedar/SymCompile.lean; mirrors symcc/compiler.rs
-`compile_prim/var/app1/app2/if/and/or` + `compile`, symcc/factory.rs `not and or eq ite bv* option_get is_none if_false
-if_some`, with `App` nodes and every non-literal branch kept): expressions `SFrag` = bool / long / string / entity
-literals, `principal action resource`, `! - && || if == < <= + - *`.
-  * `compile_correct_fragment`: if the compiler ACCEPTS `e ∈ SFrag` on the literal environment of `req`, the term it
-    builds is the folded literal `some (lit v)` / `none` exactly as `evaluate` gives `v` / errors (overflow → `none`).
+PROVED HERE FOR A FRAGMENT OF THE COMPILER (`Cedar.SymC`, Cedar/SymCompile.lean; mirrors symcc/compiler.rs
+`compile_prim/var/app1/app2/if/and/or/attrs_of/has_attr/get_attr` + `compile`, symcc/factory.rs `not and or eq ite bv*
+option_get is_none is_some if_false if_some record_get`, with `App` nodes and every non-literal branch kept, record
+terms and record term types, and the `Record` arm of `Term::from_value` for a flat context type, `ctxTermOf`):
+  first fragment `SFrag` = bool / long / string / entity literals, `principal action resource`,
+  `! - && || if == < <= + - *`;  second fragment `SFrag2` = `SFrag` + `context`, `e.a`, `e has a` on RECORD-typed terms.
+  * `compile_correct_fragment2`: on the literal environment of `req` whose context term represents the FLAT context
+    (`CtxOK`: required attribute ↦ literal, optional present ↦ `some literal`, optional absent ↦ `none ty`, primitive
+    attribute values only), if the compiler ACCEPTS `e ∈ SFrag2` the term it builds is the folded literal
+    `some (lit v)` / `some ctxT` / `none` exactly as `evaluate` gives the primitive `v` / the context record / an error
+    (overflow and a missing optional attribute ↦ `none`).  `compile_correct_fragment` (first fragment, no hypothesis about
+    the context) is its corollary.
   * ill-typed inputs: the compiler either REJECTS (`CompileError::TypeError`; e.g. `1 + true`, `true && 1`,
-    `(MAX + 1) + true` — although evaluate reports the overflow first) or accepts and folds because a constant guard /
-    short-circuit drops the ill-typed part (`false && (1 + true)` ↦ `some false`, `1 == "a"` ↦ `some false`,
-    `if 1 < 2 then 1 else true` ↦ `some 1`); an entity literal outside the schema's types / enum members is rejected
-    although evaluate succeeds.  These are `example`s; NO theorem characterises when the compiler rejects, and
-    "a fragment expression never yields the model-only error `.outside`" is not proved either (checked by the
-    differential run only: the driver would print `(outside-model)`).
-  * `compilePolicy_discharged`, `vc_skeleton_correct_fragment`: for policies whose conditions are in `SFrag`, the
+    `(MAX + 1) + true` — although evaluate reports the overflow first; `context.zz` for an undeclared attribute is
+    `NoSuchAttribute`) or accepts and folds because a constant guard / short-circuit drops the ill-typed part
+    (`false && (1 + true)` ↦ `some false`, `1 == "a"` ↦ `some false`, `if 1 < 2 then 1 else true` ↦ `some 1`,
+    `context has zz` ↦ `some false`); an entity literal outside the schema's types / enum members is rejected although
+    evaluate succeeds.  These are `example`s; NO theorem characterises when the compiler rejects (`compile_rejects_iff`
+    is not stated), and "a fragment expression never yields the model-only error `.outside`" is false for `SFrag2`
+    (`principal.a` is in `SFrag2` syntactically and gives `.outside`: attribute access on entity-typed terms is not modelled;
+    the theorem's hypothesis `hc` excludes it, the driver prints `(outside-model)`).
+  * `compilePolicy_discharged`, `vc_skeleton_correct_fragment`: for policies whose conditions are in `SFrag2`, the
     compile contract (`compilePolicy`) is what the modelled compiler produces, so `vc_skeleton_correct` holds with the
-    enforcer assumption `hEnf` as the only hypothesis.
+    enforcer assumption `hEnf` and the context representation `hctx` as the only hypotheses.
+  * NOT PROVED: that `ctxTermOf` (the symbolizer's record arm) satisfies `CtxOK` for every conformant flat context
+    (shown on an example; the driver computes the context term with `ctxTermOf`, so the differential run checks it).
 
-STILL NOT PROVED, NOT MODELLED: the compiler outside `SFrag` (context, attributes, `has`, `in`, tags, sets, records,
-`like`, `is`, extension functions), symccopt/compiler.rs' footprint, the symbolizer (`SymEnv::from_concrete_env`) and
-the enforcer.  There the contract is *sampled* by the differential run of `./check C18` (harness/src/c18.rs: real
-`SymEnv::from_concrete_env`, both compilers, the real evaluator and authorizer); the fragment itself is additionally
-checked line by line against the Rust compiler by stream `c18symc`.
+STILL NOT PROVED, NOT MODELLED: the compiler outside `SFrag2` (attributes / `has` on entities, `in`, tags, sets, record
+literals, nested-record / set-typed context attributes, `like`, `is`, extension functions), symccopt/compiler.rs'
+footprint, the rest of the symbolizer (`SymEnv::from_concrete_env`) and the enforcer.  There the contract is *sampled* by
+the differential run of `./check C18` (harness/src/c18.rs: real `SymEnv::from_concrete_env`, both compilers, the real
+evaluator and authorizer); the fragment itself is additionally checked line by line against the Rust compiler by stream
+`c18symc` (schema with a context of required and optional primitive attributes, requests supplying / omitting them).
 -/
 namespace Cedar.C18
 open Cedar Cedar.SymCC
@@ -409,22 +420,44 @@ end Examples
 section Fragment
 open Cedar.SymC
 
-/-- C18 on the fragment: whenever the compiler accepts a fragment expression on the literal environment of `req`
-    (entity-type table `etys` arbitrary), the term it builds is ALREADY the folded literal: `some (lit v)` when
-    `evaluate` gives `v` (a primitive), `none` (of some type) when `evaluate` errors (overflow or type error).
-    The store is irrelevant on this fragment.  Ill-typed inputs: see `rejections` below — a type error of `evaluate`
-    shows up either as the compiler REJECTING (`.error .typeError`, excluded here by `hc`) or, when it accepts, as `none`
-    — never as a `some`. -/
+/-- C18 on the SECOND fragment (`SFrag2` = `SFrag` + `context`, `e.a`, `e has a` on record-typed terms): on the literal
+    environment of `req` whose context term `ctxT` represents the FLAT context `req.context` (`CtxOK`: a record term with,
+    per attribute, the literal / `some literal` of the context's primitive value, or `none ty` for an absent attribute, and
+    no other attribute — what `Term::from_value(context, context_type)` builds, `ctxTermOf`; the hypothesis is only
+    needed when `ctxT` is record-typed, otherwise `compile_var` rejects `context`), whenever the compiler accepts `e` the
+    term it builds is ALREADY folded: `some (lit p)` when `evaluate` gives the primitive `p`, `some ctxT` when `evaluate`
+    gives the context record itself, `none` (of some type) when `evaluate` errors (overflow, type error, or a missing
+    optional attribute).  The store is irrelevant on this fragment. -/
+theorem compile_correct_fragment2 (req : Request) (es : Entities) (senv : SlotEnv)
+    (etys : List (EntityType × Option (List String))) (ctxT : Term)
+    (hctx : ctxT.typeOf.isRecordType = true → CtxOK req.context ctxT)
+    (e : Expr) (hf : SFrag2 e) (t : Term)
+    (hc : compile (litEnv2 req etys ctxT) e = .ok t) :
+    match evaluate req es senv e with
+    | .ok v => (∃ p, v = .prim p ∧ t = .some (.prim (litPrim p))) ∨ (v = .record req.context ∧ t = .some ctxT)
+    | .error _ => ∃ ty, t = .none ty := by
+  have h := compile_rel2 req es senv etys ctxT hctx hf t hc
+  rcases h.cases with ⟨p, hev, _, rfl⟩ | ⟨err, ty, hev, rfl⟩ | ⟨hev, rfl, _⟩
+  · rw [hev]; exact Or.inl ⟨p, rfl, rfl⟩
+  · rw [hev]; exact ⟨ty, rfl⟩
+  · rw [hev]; exact Or.inr ⟨rfl, rfl⟩
+
+/-- the first fragment (no `context`): corollary of `compile_correct_fragment2` on the context-less environment `litEnv`
+    (its context slot is a non-record dummy, so no hypothesis about the context is needed).  Ill-typed inputs: see the
+    examples below — a type error of `evaluate` shows up either as the compiler REJECTING (`.error .typeError`, excluded
+    here by `hc`) or, when it accepts, as `none` — never as a `some`. -/
 theorem compile_correct_fragment (req : Request) (es : Entities) (senv : SlotEnv)
     (etys : List (EntityType × Option (List String))) (e : Expr) (hf : SFrag e) (t : Term)
     (hc : compile (litEnv req etys) e = .ok t) :
     match evaluate req es senv e with
     | .ok v => ∃ p, v = .prim p ∧ t = .some (.prim (litPrim p))
     | .error _ => ∃ ty, t = .none ty := by
-  have h := compile_rel req es senv etys hf t hc
-  rcases h.cases with ⟨p, hev, _, rfl⟩ | ⟨err, ty, hev, rfl⟩
+  have h := compile_rel2 req es senv etys (.prim (.bool false)) (by simp [Term.typeOf, TermPrim.typeOf, TermType.isRecordType])
+    hf.toSFrag2 t hc
+  rcases h.cases with ⟨p, hev, _, rfl⟩ | ⟨err, ty, hev, rfl⟩ | ⟨_, _, hck⟩
   · rw [hev]; exact ⟨p, rfl, rfl⟩
   · rw [hev]; exact ⟨ty, rfl⟩
+  · exact absurd hck.1 (by simp [Term.isRecord])
 
 /-- `CompiledPolicy::compile_with_custom_symenv` restricted to what the skeleton reads: the compiled condition must be a
     term of type `option bool` (compiler.rs' postcondition for a boolean condition) and is read as a constant -/
@@ -447,17 +480,23 @@ def compilePoliciesReal (env : SymEnvLit) : List Policy → Option CPolicies
 
 /-- the compile contract (`compilePolicy`, so far a hypothesis-as-data) is what the modelled compiler produces -/
 theorem compilePolicy_discharged (req : Request) (es : Entities) (etys : List (EntityType × Option (List String)))
-    (p : Policy) (hf : SFrag p.condition) (c : CPolicy)
-    (h : compilePolicyReal (litEnv req etys) p = some c) : c = compilePolicy req es p := by
+    (ctxT : Term) (hctx : ctxT.typeOf.isRecordType = true → CtxOK req.context ctxT)
+    (p : Policy) (hf : SFrag2 p.condition) (c : CPolicy)
+    (h : compilePolicyReal (litEnv2 req etys ctxT) p = some c) : c = compilePolicy req es p := by
   unfold compilePolicyReal at h
-  cases hc : compile (litEnv req etys) p.condition with
+  cases hc : compile (litEnv2 req etys ctxT) p.condition with
   | error e => simp [hc] at h
   | ok t =>
     simp only [hc] at h
     split at h
     · rename_i hty
-      have hr := compile_rel req es p.env etys hf t hc
-      rcases hr.cases with ⟨q, hev, _, rfl⟩ | ⟨err, ty, hev, rfl⟩
+      have hr := compile_rel2 req es p.env etys ctxT hctx hf t hc
+      rcases hr.cases with ⟨q, hev, _, rfl⟩ | ⟨err, ty, hev, rfl⟩ | ⟨_, rfl, hck⟩
+      rotate_right
+      · have hh := isRecord_typeOf hck.1
+        simp only [Term.typeOf, TermType.option.injEq] at hty
+        rw [hty] at hh
+        simp [TermType.isRecordType] at hh
       · obtain ⟨b, rfl⟩ := litPrim_typeOf_bool (p := q) (by simpa [Term.typeOf] using hty)
         simp only [optBoolOf, litPrim, Option.some.injEq] at h
         subst h
@@ -472,35 +511,38 @@ theorem compilePolicy_discharged (req : Request) (es : Entities) (etys : List (E
     · simp at h
 
 theorem compilePolicies_discharged (req : Request) (es : Entities) (etys : List (EntityType × Option (List String)))
-    (ps : List Policy) (hf : ∀ q, q ∈ ps → SFrag q.condition) (cs : CPolicies)
-    (h : compilePoliciesReal (litEnv req etys) ps = some cs) : cs = compilePolicies req es ps := by
+    (ctxT : Term) (hctx : ctxT.typeOf.isRecordType = true → CtxOK req.context ctxT)
+    (ps : List Policy) (hf : ∀ q, q ∈ ps → SFrag2 q.condition) (cs : CPolicies)
+    (h : compilePoliciesReal (litEnv2 req etys ctxT) ps = some cs) : cs = compilePolicies req es ps := by
   induction ps generalizing cs with
   | nil => simp [compilePoliciesReal] at h; subst h; rfl
   | cons p ps ih =>
     unfold compilePoliciesReal at h
-    cases h1 : compilePolicyReal (litEnv req etys) p with
+    cases h1 : compilePolicyReal (litEnv2 req etys ctxT) p with
     | none => simp [h1] at h
     | some c =>
-      cases h2 : compilePoliciesReal (litEnv req etys) ps with
+      cases h2 : compilePoliciesReal (litEnv2 req etys ctxT) ps with
       | none => simp [h1, h2] at h
       | some cs' =>
         simp only [h1, h2, Option.some.injEq] at h
         subst h
-        rw [compilePolicy_discharged req es etys p (hf p (by simp)) c h1,
+        rw [compilePolicy_discharged req es etys ctxT hctx p (hf p (by simp)) c h1,
           ih (fun q hq => hf q (by simp [hq])) cs' h2]
         rfl
 
-/-- C18 on the fragment, WITHOUT the compile contract as a hypothesis: for policies whose conditions are in `SFrag`,
+/-- C18 on the fragment, WITHOUT the compile contract as a hypothesis: for policies whose conditions are in `SFrag2`
+    (on the literal environment with a context term representing the flat context, `hctx`),
     the constants of every verification condition, computed from the terms the MODELLED compiler and factory produce on
     the literal environment, state exactly what the concrete authorizer model does.  Remaining assumption: the
     enforcer's assumptions fold to `true` (`hEnf`; the enforcer is not modelled). -/
 theorem vc_skeleton_correct_fragment (etys : List (EntityType × Option (List String)))
+    (ctxT : Term) (hctx : ctxT.typeOf.isRecordType = true → CtxOK req.context ctxT)
     (enf : Asserts) (hEnf : EnfTrue enf) (p : Policy) (ps₁ ps₂ : List Policy)
-    (hp : SFrag p.condition) (h₁ : ∀ q, q ∈ ps₁ → SFrag q.condition) (h₂ : ∀ q, q ∈ ps₂ → SFrag q.condition)
+    (hp : SFrag2 p.condition) (h₁ : ∀ q, q ∈ ps₁ → SFrag2 q.condition) (h₂ : ∀ q, q ∈ ps₂ → SFrag2 q.condition)
     (c : CPolicy) (c₁ c₂ : CPolicies)
-    (hc : compilePolicyReal (litEnv req etys) p = some c)
-    (hc₁ : compilePoliciesReal (litEnv req etys) ps₁ = some c₁)
-    (hc₂ : compilePoliciesReal (litEnv req etys) ps₂ = some c₂) :
+    (hc : compilePolicyReal (litEnv2 req etys ctxT) p = some c)
+    (hc₁ : compilePoliciesReal (litEnv2 req etys ctxT) ps₁ = some c₁)
+    (hc₂ : compilePoliciesReal (litEnv2 req etys ctxT) ps₂ = some c₂) :
     let d₁ := (Cedar.isAuthorized req es ps₁).decision
     let d₂ := (Cedar.isAuthorized req es ps₂).decision
     ((policyVCs enf c).neverErrors = false ↔ Errs req es p) ∧
@@ -512,8 +554,8 @@ theorem vc_skeleton_correct_fragment (etys : List (EntityType × Option (List St
     ((pairVCs enf c₁ c₂).equivalent = true ↔ d₁ = d₂) ∧
     ((pairVCs enf c₁ c₂).disjoint = true ↔ ¬ (d₁ = .allow ∧ d₂ = .allow)) ∧
     (policyVCsOpt enf c = policyVCs enf c ∧ setVCsOpt enf c₁ = setVCs enf c₁ ∧ pairVCsOpt enf c₁ c₂ = pairVCs enf c₁ c₂) := by
-  rw [compilePolicy_discharged req es etys p hp c hc, compilePolicies_discharged req es etys ps₁ h₁ c₁ hc₁,
-    compilePolicies_discharged req es etys ps₂ h₂ c₂ hc₂]
+  rw [compilePolicy_discharged req es etys ctxT hctx p hp c hc, compilePolicies_discharged req es etys ctxT hctx ps₁ h₁ c₁ hc₁,
+    compilePolicies_discharged req es etys ctxT hctx ps₂ h₂ c₂ hc₂]
   exact vc_skeleton_correct req es enf hEnf p ps₁ ps₂
 
 end Fragment
@@ -571,6 +613,54 @@ example : compile (litEnv exReq exEtys)
 -- an entity literal of a type outside the schema / outside an enumerated type: rejected, although evaluate succeeds
 example : compile (litEnv exReq exEtys) (.lit (.entityUID ⟨"Ghost", "x"⟩)) = .error .typeError := by decide +kernel
 example : compile (litEnv exReq exEtys) (.lit (.entityUID ⟨"Action", "edit"⟩)) = .error .typeError := by decide +kernel
+
+/-! non-vacuity of `compile_correct_fragment2`: a request with context `{m: 5, n: 1}` for the context type
+    `{m?: Long, n: Long, s?: String}`; the context term is what `ctxTermOf` (= `Term::from_value`) builds -/
+def exReq2 : Request := { exReq with context := [("m", .prim (.int 5)), ("n", .prim (.int 1))] }
+def exCtxT : Term :=
+  .recCons "m" (.some (.prim (.bitvec 5))) (.recCons "n" (.prim (.bitvec 1)) (.recCons "s" (.none .string) .recNil))
+/-- `context has m && context.m + 1 < context.n + 9` and `context.s == "x"` (absent optional attribute) -/
+def exCtxE : Expr :=
+  .and (.hasAttr (.var .context) "m")
+    (.binaryApp .less (.binaryApp .add (.getAttr (.var .context) "m") (.lit (.int 1)))
+      (.binaryApp .add (.getAttr (.var .context) "n") (.lit (.int 9))))
+def exCtxS : Expr := .binaryApp .eq (.getAttr (.var .context) "s") (.lit (.string "x"))
+
+example : ctxTermOf exReq2.context [("m", .long, false), ("n", .long, true), ("s", .string, false)] = some exCtxT := by
+  decide +kernel
+example : CtxOK exReq2.context exCtxT := by
+  refine ⟨rfl, ?_, ?_⟩
+  · intro a ft h
+    by_cases h1 : a = "m"
+    · subst h1
+      have : ft = .some (.prim (.bitvec 5)) := by simpa [exCtxT, recFind?] using h.symm
+      subst this
+      exact Or.inl ⟨.int 5, (by decide : inI64 5 = true), by simp [exReq2, lookupKV], Or.inr rfl⟩
+    · by_cases h2 : a = "n"
+      · subst h2
+        have : ft = .prim (.bitvec 1) := by simpa [exCtxT, recFind?] using h.symm
+        subst this
+        exact Or.inl ⟨.int 1, (by decide : inI64 1 = true), by simp [exReq2, lookupKV], Or.inl rfl⟩
+      · by_cases h3 : a = "s"
+        · subst h3
+          have : ft = .none .string := by simpa [exCtxT, recFind?] using h.symm
+          subst this
+          exact Or.inr ⟨by simp [exReq2, lookupKV], _, rfl⟩
+        · simp [exCtxT, recFind?, Ne.symm h1, Ne.symm h2, Ne.symm h3] at h
+  · intro a h
+    have h1 : ¬ "m" = a := by intro e; subst e; simp [exCtxT, recFind?] at h
+    have h2 : ¬ "n" = a := by intro e; subst e; simp [exCtxT, recFind?] at h
+    simp [exReq2, lookupKV, h1, h2]
+example : SFrag2 exCtxE := inFrag2_sound _ (by decide +kernel)
+example : compile (litEnv2 exReq2 exEtys exCtxT) exCtxE = .ok (.some (.prim (.bool true))) := by decide +kernel
+example : compile (litEnv2 exReq2 exEtys exCtxT) exCtxS = .ok (.none .bool) := by decide +kernel
+example : compile (litEnv2 exReq2 exEtys exCtxT) (.var .context) = .ok (.some exCtxT) := by decide +kernel
+-- an attribute the context type does not declare: `has` folds to false, `.` is rejected (NoSuchAttribute)
+example : compile (litEnv2 exReq2 exEtys exCtxT) (.hasAttr (.var .context) "zz") = .ok (.some (.prim (.bool false))) := by
+  decide +kernel
+example : compile (litEnv2 exReq2 exEtys exCtxT) (.getAttr (.var .context) "zz") = .error .noSuchAttr := by decide +kernel
+-- attribute access on an entity-typed term is outside the model
+example : compile (litEnv2 exReq2 exEtys exCtxT) (.getAttr (.var .principal) "name") = .error .outside := by decide +kernel
 
 /-- permit when exIf;  forbid when exOvf (errors) -/
 def pIf : Policy := { id := "q0", effect := .permit, condition := exIf, env := [] }
